@@ -260,7 +260,7 @@ def miner_stage(ctx, sim, rnd):
     judge(ctx, behs, OPTS_DEFAULT, "miner", two_processes=False, driver="minerexec")
     fired = ctx.cov.get("clauses_fired", {})
     idle = sorted(k for k in ("MinerIncludesOnlyExecutable", "MinerDropped", "MinerRejected") if not fired.get(k))
-    if idle:
+    if idle and not ctx.violations:
         raise vlib.Undecided("miner stage: monitor counters never fired (vacuous run): %s" % ", ".join(idle))
 
 
@@ -329,7 +329,7 @@ def run(ctx):
     miner_stage(ctx, [v["h"] for v in g2.printed if isinstance(v, dict) and v.get("kind") == "B"][:12 if quick else 200], rnd)
     fired = ctx.cov.get("clauses_fired", {})
     idle = sorted(k for k in ("Deterministic", "BuilderAccepted", "ImportReproduces", "PeriodEnds", "Slashed") if not fired.get(k))
-    if idle:
+    if idle and not ctx.violations:
         raise vlib.Undecided("monitor clauses never fired (vacuous run): %s" % ", ".join(idle))
     if not quick:
         selftest(ctx, trace)
